@@ -2,6 +2,7 @@ package pypi
 
 import (
 	"fmt"
+	"strconv"
 	"strings"
 )
 
@@ -131,33 +132,32 @@ func parseWildcardConstraint(operator, version string) ([]*constraint, error) {
 		return nil, err
 	}
 
-	if operator == "==" {
-		// ==1.2.* means >=1.2.0, <1.3.0
-		if len(v.release) >= 2 {
-			lowerBound := fmt.Sprintf("%d.%d.0", v.release[0], v.release[1])
-			upperBound := fmt.Sprintf("%d.%d.0", v.release[0], v.release[1]+1)
+	// The prefix X.Y[.Z...] matches the versions from X.Y[.Z...].0 up to, but not including,
+	// the prefix with its last segment incremented: ==1.2.* means >=1.2.0, <1.3.0 and
+	// ==1.2.3.* means >=1.2.3.0, <1.2.4.0
+	if len(v.release) >= 1 {
+		segments := make([]string, len(v.release))
+		for i, n := range v.release {
+			segments[i] = strconv.Itoa(n)
+		}
+		lowerBound := strings.Join(segments, ".") + ".0"
+		segments[len(segments)-1] = strconv.Itoa(v.release[len(v.release)-1] + 1)
+		upperBound := strings.Join(segments, ".") + ".0"
+		if len(v.release) == 1 {
+			// keep the three-component spelling used for ==1.*
+			lowerBound += ".0"
+			upperBound += ".0"
+		}
+
+		if operator == "==" {
 			return []*constraint{
 				{operator: ">=", version: lowerBound},
 				{operator: "<", version: upperBound},
 			}, nil
 		}
 
-		// ==1.* means >=1.0.0, <2.0.0
-		if len(v.release) >= 1 {
-			lowerBound := fmt.Sprintf("%d.0.0", v.release[0])
-			upperBound := fmt.Sprintf("%d.0.0", v.release[0]+1)
-			return []*constraint{
-				{operator: ">=", version: lowerBound},
-				{operator: "<", version: upperBound},
-			}, nil
-		}
-	}
-
-	if operator == "!=" {
-		// !=1.2.* means <1.2.0 or >=1.3.0
-		if len(v.release) >= 2 {
-			lowerBound := fmt.Sprintf("%d.%d.0", v.release[0], v.release[1])
-			upperBound := fmt.Sprintf("%d.%d.0", v.release[0], v.release[1]+1)
+		if operator == "!=" {
+			// !=1.2.* means <1.2.0 or >=1.3.0
 			return []*constraint{
 				{operator: "!=*", version: lowerBound, upper: upperBound},
 			}, nil
